@@ -217,3 +217,18 @@ func c14bmc(k int) {
 		}
 	}
 }
+
+// C03 relies on the same filter for "returned at most once": the inductive
+// step and the Check<=>spec obligation are discharged under C03 as well, so a
+// change to the filter is reported against the transport-channel property too.
+//
+//verif:prop C03
+//verif:bounds as VH_C14_step_preserves_inv
+//verif:unwind 12
+//verif:cover accepted;rejected
+func VH_C03_replay_filter_step() { VH_C14_step_preserves_inv() }
+
+//verif:prop C03
+//verif:bounds as VH_C14_check_iff_spec
+//verif:cover check-true;check-false
+func VH_C03_replay_filter_check_iff_spec() { VH_C14_check_iff_spec() }
